@@ -73,7 +73,7 @@ def gen_version_ast(d, safe_seps=False):
         main.append(["part", p])
     # wrap a zero-able numeric suffix into nested optional groups:  A.MINOR.PATCH -> A[.MINOR[.PATCH]]
     tail = []
-    while (len(main) >= 3 and main[-1][0] == "part" and main[-1][1] in ("MINOR", "PATCH", "INC0")
+    while (len(main) >= 3 and main[-1][0] == "part" and main[-1][1] in ("MINOR", "PATCH", "INC0", "INC1")
            and main[-2][0] == "lit" and d.bool()):
         part = main.pop()
         sep = main.pop()
@@ -268,7 +268,7 @@ def gen_pep440_ast(d):
                 main.append(["lit", "."])
         main.append(["part", p])
     tail = []
-    while (len(main) >= 3 and main[-1][0] == "part" and main[-1][1] in ("MINOR", "PATCH", "INC0")
+    while (len(main) >= 3 and main[-1][0] == "part" and main[-1][1] in ("MINOR", "PATCH", "INC0", "INC1")
            and main[-2][0] == "lit" and d.bool()):
         part = main.pop()
         sep = main.pop()
